@@ -1,7 +1,7 @@
 (* RawCache::flush (the offload at HybridCache::close): after it the shard is empty, and every record that was
    resident - referenced or not, whatever it weighs - got exactly the Evict step (event + hand-off to the pipe).
    The pinned snapshot's flush was evict_all: with LRU a record whose handle is alive is not offered as a victim and
-   stayed behind (finding F19, repaired by 517c997). *)
+   stayed behind (finding F19, repaired by 92930ee). *)
 From Coq Require Import List NArith Bool Arith Lia.
 From FV Require Import Base.ListX Mem.Shard Mem.ShardLemmas Mem.ShardInv.
 Import ListNotations.
